@@ -89,12 +89,23 @@ func (p *Program) ApplyComponent(name string, prog *Program, progFilePath string
 		duplicateName, times := findDuplicateSlot(comp.Slots)
 
 		if times > 0 {
+			// the error is about the use of the component in this file:
+			// its line is the line of the first slot passed twice
+			line := comp.Line()
+
+			for _, slot := range comp.Slots {
+				if slot.Name.Value == duplicateName {
+					line = slot.Line()
+					break
+				}
+			}
+
 			if name == "" {
-				return fail.New(prog.Line(), progFilePath, "parser",
+				return fail.New(line, progFilePath, "parser",
 					fail.ErrDuplicateDefaultSlotUsage, times, name)
 			}
 
-			return fail.New(prog.Line(), progFilePath, "parser",
+			return fail.New(line, progFilePath, "parser",
 				fail.ErrDuplicateSlotUsage, duplicateName, times, name)
 		}
 
@@ -103,11 +114,11 @@ func (p *Program) ApplyComponent(name string, prog *Program, progFilePath string
 
 			if idx == -1 {
 				if slot.Name.Value == "" {
-					return fail.New(prog.Line(), progFilePath, "parser",
+					return fail.New(slot.Line(), progFilePath, "parser",
 						fail.ErrDefaultSlotNotDefined, name)
 				}
 
-				return fail.New(prog.Line(), progFilePath, "parser",
+				return fail.New(slot.Line(), progFilePath, "parser",
 					fail.ErrSlotNotDefined, slot.Name.Value, name)
 			}
 
